@@ -1,6 +1,7 @@
 /-
 Oracle driver for C06.  Header: `trie <hexpattern>…`.  Ops: `mask <hextext> <rune>`,
-`replace <hextext> <hexrepl>`; answers the result string in hex, or `panic`.
+`replace <hextext> <hexrepl>`; answers the result string in hex, or `panic`.  History ops
+`insert <hex>` / `build` and the structural `dump` are those of the C05 driver.
 -/
 import Golib.Model.C06Replace
 import Golib.Model.C05
@@ -10,6 +11,7 @@ open Golib.Proto Golib.C05
 
 def runOp (t : Trie) (ts : List String) : Option (Option String) :=
   match ts with
+  | ["dump"] => some (dumpLine t)
   | ["mask", text, m] =>
     match unhex text, m.toInt? with
     | some bs, some mask => if bytesOK bs then some ((replaceWithMask t bs mask).map hex) else none
@@ -24,10 +26,14 @@ def runOps : Option Trie → List String → List String
   | _, [] => []
   | none, _ :: ls => "dead" :: runOps none ls
   | some t, l :: ls =>
-    match runOp t (toks l) with
-    | none => "bad-op" :: runOps (some t) ls
+    match mutOp t (toks l) with
+    | some (some t') => "ok" :: runOps (some t') ls
     | some none => "panic" :: runOps none ls
-    | some (some out) => out :: runOps (some t) ls
+    | none =>
+      match runOp t (toks l) with
+      | none => "bad-op" :: runOps (some t) ls
+      | some none => "panic" :: runOps none ls
+      | some (some out) => out :: runOps (some t) ls
 
 def runCase (hdr : List String) (ops : List String) : List String :=
   match hdr with
